@@ -96,7 +96,10 @@ class Destinations(object):
         is_destination_error_message = (
             message.get("message_type", None) == DESTINATION_FAILURE
         )
-        for dest in self._destinations:
+        # (a copy: a destination may be removed, e.g. by itself, while the
+        # message is being delivered, and removing from the list being
+        # iterated over would make the next destination miss the message)
+        for dest in list(self._destinations):
             try:
                 dest(message)
             except Exception as e:
